@@ -100,3 +100,26 @@ def long_run(n, updates):
             s = v
         got = q.next_sequence()
         check(got == s + i % 10, "request %d of a long run == start in force + n mod 10" % (i if i < 300 else (i // 1000) * 1000))
+
+
+def failed_request():
+    """a request that raises (a start whose value is not a number yet) returns no sequence number and therefore does
+    not count: the numbering continues where it was once a proper start is in force again"""
+    s0 = sym_int("s0")
+    s1 = sym_int("s1")
+    q = PacketSequencer(start_of(s0))
+    r = fork(sym_int("r", 0, 12))
+    for i in range(r):
+        check(q.next_sequence() == s0 + i % 10, "requests before the failure")
+    q.set_sequence_start(AccountReplySequenceStart.from_value(None))
+    failures = fork(sym_int("failures", 1, 3))
+    for _ in range(failures):
+        try:
+            q.next_sequence()
+            raised = False
+        except TypeError:
+            raised = True
+        check(raised, "a start without a numeric value makes the request fail")
+    q.set_sequence_start(start_of(s1))
+    check(q.next_sequence() == s1 + r % 10, "failed requests do not advance the counter")
+    check(q.next_sequence() == s1 + (r + 1) % 10, "numbering continues after the failure")
